@@ -252,6 +252,135 @@ def py_check(text, columns):
     return bad
 
 
+# the mirror rules, written from the model's type names and the exporters' documented conventions (not from their code)
+PY_TYPE_TABLE = {
+    "smallint": ("int", "SmallInteger"), "integer": ("int", "Integer"), "bigint": ("int", "BigInteger"),
+    "real": ("float", "Float"), "double precision": ("float", "Float"), "text": ("str", "Text"), "boolean": ("bool", "Boolean"),
+    "date": ("date", "Date"), "time": ("time", "Time"), "timestamp": ("datetime", "DateTime"), "timestamptz": ("datetime", "DateTime"),
+    "interval": (("str", "timedelta"), "Interval"), "bytea": ("bytes", "LargeBinary"), "uuid": ("UUID", "Uuid"), "json": ("dict", "JSON"),
+    "inet": ("str", "String"), "cidr": ("str", "String"), "macaddr": ("str", "String"), "xml": ("str", "Text"),
+    "varchar": ("str", "String"), "char": ("str", "String"), "numeric": ("Decimal", "Numeric"),
+    "custom": (None, None),                      # ambiguous: not judged
+    "enum:string": ("<enum class defined in the module>", "Enum"), "enum:integer": ("<enum class defined in the module>", "Integer"),
+}
+PY_MIRROR_RULES = {
+    "nullability": "SQLModel: annotation is Optional[T] iff column.nullable; SQLAlchemy: Mapped[Optional[T]] iff column.nullable, and keyword nullable=<column.nullable> on every non-key column (key columns carry primary_key=True and no nullable keyword)",
+    "type": "base Python type and SQLAlchemy column type by PY_TYPE_TABLE[model type name] (interval: str or timedelta accepted; custom: not judged; enum: a class of the module deriving enum.Enum / enum.IntEnum)",
+    "primary_key": "primary_key=True exactly on the columns of the table's primary_key constraint",
+    "foreign_key": "single-column FK (columns and ref_columns of length 1): SQLAlchemy positional ForeignKey(\"<ref_table>.<ref_column>\"), SQLModel foreign_key=\"<ref_table>.<ref_column>\"; absent otherwise (several FKs on one column: any of them)",
+    "unique": "unique=True iff the column has a single-column unique constraint and is not a key column",
+    "index": "SQLModel: index=True iff the column has a single-column index constraint and is not a key column (SQLAlchemy lists indexes in __table_args__: not judged)",
+    "default": "SQLAlchemy: server_default keyword present iff the column has a default; SQLModel: default=<non-None> or sa_column_kwargs server_default present iff the column has a default, default=None iff it has none and is nullable",
+    "type_table": {k: list(v) if isinstance(v, tuple) else v for k, v in PY_TYPE_TABLE.items()},
+}
+
+
+def _type_key(ty):
+    if isinstance(ty, str):
+        return ty
+    k = ty.get("kind")
+    if k == "enum":
+        vals = ty.get("values") or []
+        return "enum:integer" if vals and isinstance(vals[0], dict) else "enum:string"
+    return k
+
+
+def py_mirror(tree, orm, table):
+    """Per-column mirror check on the parsed module: does each emitted field say what the model column says?"""
+    bad = []
+    classes = [n for n in tree.body if isinstance(n, ast.ClassDef)]
+    if not classes:
+        return bad
+    enum_classes = {c.name for c in classes[:-1]}
+    fields = {}
+    for st in classes[-1].body:
+        if isinstance(st, ast.AnnAssign) and isinstance(st.target, ast.Name) and st.target.id not in fields:
+            fields[st.target.id] = st
+    pk = [c for k in table["constraints"] if k["type"] == "primary_key" for c in k["columns"]]
+    uniq = {k["columns"][0] for k in table["constraints"] if k["type"] == "unique" and len(k["columns"]) == 1}
+    idx = {k["columns"][0] for k in table["constraints"] if k["type"] == "index" and len(k["columns"]) == 1}
+    fks = collections.defaultdict(set)
+    for k in table["constraints"]:
+        if k["type"] == "foreign_key" and len(k["columns"]) == 1 and len(k["ref_columns"]) == 1:
+            fks[k["columns"][0]].add("%s.%s" % (k["ref_table"], k["ref_columns"][0]))
+
+    def name_of(n):
+        if isinstance(n, ast.Name):
+            return n.id
+        if isinstance(n, ast.Call):
+            return name_of(n.func)
+        if isinstance(n, ast.Attribute):
+            return n.attr
+        return None
+
+    for col in table["columns"]:
+        st = fields.get(col["name"])
+        if st is None or not isinstance(st.value, ast.Call):
+            continue                      # already reported as column-count / syntax
+        cname = col["name"]
+        ann = st.annotation
+        if orm == "sqlalchemy":
+            if not (isinstance(ann, ast.Subscript) and name_of(ann.value) == "Mapped"):
+                bad.append({"kind": "mirror-type", "detail": "%s: annotation is not Mapped[...]" % cname}); continue
+            ann = ann.slice
+        optional = isinstance(ann, ast.Subscript) and name_of(ann.value) == "Optional"
+        base = ann.slice if optional else ann
+        nullable = bool(col.get("nullable"))
+        has_default = col.get("default") is not None
+        kw = {k.arg: k.value for k in st.value.keywords if k.arg}
+        # (a) nullability
+        if optional != nullable:
+            bad.append({"kind": "mirror-nullable", "detail": "%s: nullable=%s but annotation %s Optional" % (cname, nullable, "is" if optional else "is not")})
+        if orm == "sqlalchemy":
+            if cname in pk:
+                if "nullable" in kw:
+                    bad.append({"kind": "mirror-nullable", "detail": "%s: key column with a nullable keyword" % cname})
+            elif not (isinstance(kw.get("nullable"), ast.Constant) and kw["nullable"].value is nullable):
+                bad.append({"kind": "mirror-nullable", "detail": "%s: nullable=%s but keyword nullable is %s" % (cname, nullable, ast.dump(kw["nullable"]) if "nullable" in kw else "absent")})
+        # (b) type
+        want_py, want_sa = PY_TYPE_TABLE.get(_type_key(col["type"]), (None, None))
+        got = name_of(base)
+        if want_py is not None:
+            if want_py.startswith("<") if isinstance(want_py, str) else False:
+                if got not in enum_classes:
+                    bad.append({"kind": "mirror-type", "detail": "%s: enum column annotated %s, not an enum class of the module" % (cname, got)})
+            elif got not in (want_py if isinstance(want_py, tuple) else (want_py,)):
+                bad.append({"kind": "mirror-type", "detail": "%s: %s column annotated %s" % (cname, _type_key(col["type"]), got)})
+        if orm == "sqlalchemy" and want_sa is not None and st.value.args:
+            sa = name_of(st.value.args[0])
+            if sa != want_sa:
+                bad.append({"kind": "mirror-type", "detail": "%s: %s column mapped as %s" % (cname, _type_key(col["type"]), sa)})
+        # (c) keys, foreign keys, unique, index
+        is_pk_kw = isinstance(kw.get("primary_key"), ast.Constant) and kw["primary_key"].value is True
+        if is_pk_kw != (cname in pk):
+            bad.append({"kind": "mirror-pk", "detail": "%s: key column=%s, primary_key=True %s" % (cname, cname in pk, "present" if is_pk_kw else "absent")})
+        if orm == "sqlalchemy":
+            got_fk = [a.args[0].value for a in st.value.args[1:] if isinstance(a, ast.Call) and name_of(a) == "ForeignKey" and a.args and isinstance(a.args[0], ast.Constant)]
+        else:
+            got_fk = [kw["foreign_key"].value] if isinstance(kw.get("foreign_key"), ast.Constant) else []
+        if (not fks[cname] and got_fk) or (fks[cname] and (len(got_fk) != 1 or got_fk[0] not in fks[cname])):
+            bad.append({"kind": "mirror-fk", "detail": "%s: model FK %s, emitted %s" % (cname, sorted(fks[cname]), got_fk)})
+        is_u = isinstance(kw.get("unique"), ast.Constant) and kw["unique"].value is True
+        if is_u != (cname in uniq and cname not in pk):
+            bad.append({"kind": "mirror-unique", "detail": "%s: unique=True %s" % (cname, "present" if is_u else "absent")})
+        if orm == "sqlmodel":
+            is_i = isinstance(kw.get("index"), ast.Constant) and kw["index"].value is True
+            if is_i != (cname in idx and cname not in pk):
+                bad.append({"kind": "mirror-index", "detail": "%s: index=True %s" % (cname, "present" if is_i else "absent")})
+        # (d) default
+        if orm == "sqlalchemy":
+            if ("server_default" in kw) != has_default:
+                bad.append({"kind": "mirror-default", "detail": "%s: model default %s, server_default %s" % (cname, has_default, "present" if "server_default" in kw else "absent")})
+        else:
+            d_none = isinstance(kw.get("default"), ast.Constant) and kw["default"].value is None
+            d_val = ("default" in kw and not d_none) or ("sa_column_kwargs" in kw and "server_default" in ast.dump(kw["sa_column_kwargs"]))
+            if d_val != has_default:
+                bad.append({"kind": "mirror-default", "detail": "%s: model default %s, emitted default %s" % (cname, has_default, "present" if d_val else "absent")})
+            if d_none != (not has_default and nullable):
+                bad.append({"kind": "mirror-default", "detail": "%s: default=None %s (nullable=%s, model default %s)" % (cname, "present" if d_none else "absent", nullable, has_default)})
+    return bad
+
+
 def py_oracle(run):
     def go():
         cases = {c["idx"]: c for c in jl(os.path.join(run["dir"], "cases.jsonl"))}
@@ -262,8 +391,13 @@ def py_oracle(run):
             n += 1
             cols = [c["name"] for c in cases[t["case"]]["models"][t["table"]]["columns"]]
             bad = py_check(t["text"], cols)
+            if not any(b["kind"] == "syntax" for b in bad):
+                try:
+                    bad += py_mirror(ast.parse(t["text"]), t["orm"], cases[t["case"]]["models"][t["table"]])
+                except Exception as e:      # the mirror check must not hide a well-formedness result
+                    bad.append({"kind": "mirror-error", "detail": repr(e)[:200]})
             if bad:
-                fails.append({"case": t["case"], "table": t["table"], "orm": t["orm"], "failures": bad[:6]})
+                fails.append({"case": t["case"], "table": t["table"], "orm": t["orm"], "failures": bad[:8]})
         return {"checked": n, "fails": fails}
     return cached(run["dir"], "r_py.json", go)
 
